@@ -36,12 +36,13 @@ class C05(Prop):
         # the same for the repaired variant `twoPassR`
         "PylifeVerif.C05.hcm_model_eq_guideline",
         "PylifeVerif.C05.hcm_batch_eq_single",
+        "PylifeVerif.C05.hcm_batch_eq_single_LF",
         "PylifeVerif.C05.hcm_neg_mirror",
         # the published literal: FKM guideline example 2.7.1 / table 2.24 (kernel evaluation)
         "PylifeVerif.C05.fkm_guideline_example_2_7_1_code",
         "PylifeVerif.C05.fkm_guideline_example_2_7_1",
     ]
-    PARTIAL = {"PylifeVerif.C05.hcm_batch_eq_single_code": "(the same hypotheses apply to hcm_batch_eq_single_LF_code and hcm_batch_eq_single) batch = single is proved for positive INTEGER factors and one Law shared by all points, under SignPreserving (a law whose secondary branch follows the sign of the load range - true for every monotone law; proved in Lean for the linear stub law, signPreserving_lawLinear); for a non-monotone law the per-column min/max selection by the first point's values can differ between points"}
+    PARTIAL = {"PylifeVerif.C05.hcm_batch_eq_single_code": "(the same hypotheses apply to hcm_batch_eq_single_LF_code, hcm_batch_eq_single and hcm_batch_eq_single_LF) batch = single is proved for positive INTEGER factors and one Law shared by all points, under SignPreserving (a law whose secondary branch follows the sign of the load range - true for every monotone law; proved in Lean for the linear stub law, signPreserving_lawLinear); for a non-monotone law the per-column min/max selection by the first point's values can differ between points"}
     RULE = ("case = (load sequence of a reference point, integer load factors of 1-4 points - first factor 1..3, later ones 0..4, 0 = unloaded point -, "
             "one of six load_step label layouts, exact stub notch law; oracle-only cases with positive non-integer factors); every column of "
             "the recorder's collective (min/max load, stress, strain, running strain extremes, closed/half flag, zero-mean flag, pass number) and the "
@@ -56,6 +57,7 @@ class C05(Prop):
         "derived columns (S_a, S_m, epsilon_a, epsilon_m, R with the Memory-3 overrides) and the first/second-run split of the strain values are not in the Lean model: oracle only",
         "Spec.guideline is fed the model's own ghost record of the reversals handed to the passes; the oracle's ref_feed / ref_guideline are transcriptions by the same author that repeat the code's flush rule (incl. the open C04 finding) - the reading of the procedure is pinned to the published FKM guideline example 2.7.1 / table 2.24 (C05.fkm_guideline_example_2_7_1*)",
         "notch_approximation_law.py is listed in SOURCES for its hash only: C05 runs stub laws",
+        "points loaded in the opposite sense to the first point (negative load factor) are outside the quantifier: never generated, and excluded from the batch theorems (hypothesis `0 < c` for every factor); there the running strain extremes after /repo 68eb0ef are not the point's own (tools/audit/fixreview-a.md)",
     ]
 
     def __init__(self):
